@@ -284,11 +284,11 @@ Proof. vm_compute. reflexivity. Qed.
 
 Example ex_judge_accepts :
   let '(tr, fin) := run_request (configure 1%N 7%N 8%N [ex_prog]) [(ex_v, CRes 0%N)] (ex_rq []) in
-  judge ex_prog (proj_trace tr) (proj_final fin) = 0%N.
+  judge ex_prog (overridden_tags [ex_prog]) (proj_trace tr) (proj_final fin) = 0%N.
 Proof. vm_compute. reflexivity. Qed.
 
 (* the judge rejects a log in which the body ran without the check *)
-Example ex_judge_rejects : judge ex_prog [Body 1%N (CRes 0%N)] (Resp 1%N) = 1%N.
+Example ex_judge_rejects : judge ex_prog [] [Body 1%N (CRes 0%N)] (Resp 1%N) = 1%N.
 Proof. vm_compute. reflexivity. Qed.
 
 (* the hypotheses of view_before_policy_protected are satisfiable *)
@@ -498,3 +498,17 @@ Proof.
   exists st, eo, o, b. repeat split; try assumption.
   intros p Hperm. unfold run_request in *. eapply mediation; eauto. rewrite H4. exact Hperm.
 Qed.
+
+(* the judge rejects the callable of an overridden statement: an open view committed first, the same slot declared
+   with a permission in a later commit; a log in which the first callable ran gets bit 128 *)
+Definition ex_override : list (list stmt) :=
+  [[SPolicy true false; SView (ex_opts 1%N [] None)]; [SView (ex_opts 2%N [] (Some ex_v))]].
+Example ex_overridden_tags : overridden_tags ex_override = [1%N].
+Proof. vm_compute. reflexivity. Qed.
+Example ex_judge_rejects_overridden :
+  judge (concat ex_override) (overridden_tags ex_override) [Deco 1%N (CRes 0%N); Body 1%N (CRes 0%N)] (Resp 1%N) = 128%N.
+Proof. vm_compute. reflexivity. Qed.
+Example ex_model_runs_the_override :
+  run_request (configure 1%N 7%N 8%N ex_override) [] (ex_rq []) =
+  ([Permits ex_v (CRes 0%N) false; Raised EForbidden], Propagated EForbidden).
+Proof. vm_compute. reflexivity. Qed.
